@@ -4828,7 +4828,10 @@ fn process_relocation<'data, 'scope, A: Arch<Platform = Elf>, R: Relocation>(
                     .store(true, atomic::Ordering::Relaxed);
             }
         } else if flags_to_add.needs_direct() && flags.is_interposable() {
-            if section_is_writable {
+            // Only absolute relocations get a symbolic dynamic relocation (see
+            // `write_absolute_relocation`). PC-relative and GOT-base-relative references from
+            // writable sections are handled like those from read-only sections.
+            if section_is_writable && rel_info.kind == RelocationKind::Absolute {
                 common.allocate(part_id::RELA_DYN_GENERAL, elf::RELA_ENTRY_SIZE);
             } else if flags.is_function() {
                 // Create a PLT entry for the function and refer to that instead.
